@@ -8,6 +8,7 @@ import (
 	"math/rand"
 	"sync"
 
+	"github.com/hashicorp/hcl-lang/lang"
 	"github.com/hashicorp/hcl-lang/schema"
 	"github.com/zclconf/go-cty/cty"
 )
@@ -26,6 +27,9 @@ func runC05(run *Run, replay string) {
 		scs := genScenarios(r, ScenarioOpts{Histories: 2, Inject: bi%3 == 1, Gen: GenOpts{Degenerate: bi%5 == 4}, SecondPath: bi%2 == 0})
 		if bi%4 == 0 {
 			scs = append(scs, directedScenario(r))
+		}
+		if bi%4 == 1 {
+			scs = append(scs, impliedScenario(r))
 		}
 		for si, s := range scs {
 			s.W.Collect()
@@ -108,4 +112,36 @@ func directedScenario(r *rand.Rand) *Scenario {
 	w := newWorld()
 	pd := w.AddPath("root", sch, map[string]string{"main.tf": text}, genFunctions(r))
 	return &Scenario{W: w, Main: pd, File: "main.tf", Src: []byte(text), Kind: "directed"}
+}
+
+// impliedScenario: implied origins declared at the root (in a slice with spare capacity, as a schema built by
+// append has) and in the bodies of different block types used in different files of the path.
+func impliedScenario(r *rand.Rand) *Scenario {
+	imp := func(name string) schema.ImpliedOrigin {
+		return schema.ImpliedOrigin{
+			OriginAddress: lang.Address{lang.RootStep{Name: "module"}, lang.AttrStep{Name: name}, lang.AttrStep{Name: "out"}},
+			TargetAddress: lang.Address{lang.RootStep{Name: "output"}, lang.AttrStep{Name: "out"}},
+			Path:          lang.Path{Path: "mod-" + name, LanguageID: "hcl"},
+			Constraints:   schema.Constraints{ScopeId: "output", Type: cty.DynamicPseudoType},
+		}
+	}
+	val := &schema.AttributeSchema{IsOptional: true, Constraint: schema.AnyExpression{OfType: cty.DynamicPseudoType}}
+	blk := func(name string) *schema.BlockSchema {
+		return &schema.BlockSchema{Body: &schema.BodySchema{AnyAttribute: val, ImpliedOrigins: schema.ImpliedOrigins{imp(name)}}}
+	}
+	root := make(schema.ImpliedOrigins, 0, 4)
+	root = append(root, imp("root"))
+	sch := &schema.BodySchema{AnyAttribute: val, ImpliedOrigins: root,
+		Blocks: map[string]*schema.BlockSchema{"ma": blk("a"), "mb": blk("b"), "mc": blk("c")}}
+	files := map[string]string{}
+	for _, n := range []string{"a", "b", "c"} {
+		var sb string
+		for i, k := 0, 1+r.Intn(3); i < k; i++ {
+			sb += fmt.Sprintf("m%s {\n  v%d = module.%s.out\n  w = module.root.out\n}\n", n, i, n)
+		}
+		files[n+".tf"] = sb + "top_" + n + " = module.root.out\n"
+	}
+	w := newWorld()
+	pd := w.AddPath("root", sch, files, genFunctions(r))
+	return &Scenario{W: w, Main: pd, File: "a.tf", Src: []byte(files["a.tf"]), Kind: "implied-origins"}
 }
